@@ -91,6 +91,16 @@ func ruleBlockSync(c *Ctx) {
 					}
 				}
 			}
+			// the same with the state kept in a register: a loop phi fed by ApplyBlock's first result
+			if phi, isPhi := aa[0].(*ssa.Phi); isPhi && !okState {
+				for _, e := range phi.Edges {
+					if ex, isEx := e.(*ssa.Extract); isEx && ex.Index == 0 {
+						if cl, isCl := ex.Tuple.(*ssa.Call); isCl && w.isCall(cl, specApply) {
+							okState = true
+						}
+					}
+				}
+			}
 			c.Check(okState, fk+" :: running state advances with each applied block", w.ipos(ap), "state = ApplyBlock(state, …)", "the state used for verification is not updated from ApplyBlock's result")
 		}
 		// persistence before execution, execution failure is fatal
@@ -163,6 +173,9 @@ func ruleSeenCommitFull(c *Ctx) {
 	for _, f := range w.Funcs {
 		if !strings.HasPrefix(relPkg(f), "blockchain/") {
 			continue
+		}
+		if transparentSite(f) != nil {
+			continue // a helper carved out of one caller: decided there, in the caller's terms
 		}
 		for _, vc := range w.callsTo(f, "types#ValidatorSet.VerifyCommitLight", "types#ValidatorSet.VerifyCommit") {
 			full := w.isCall(vc, "types#ValidatorSet.VerifyCommit")
